@@ -647,7 +647,6 @@ Definition tuple_ok (f : tx_fields) : bool :=
   && match fields_class f with SGood => true | _ => false end
   && (spec_total_out f <? u64lim)%N.
 
-Inductive hrun := HBad | HStop (out : string) | HDone (obs : list string) (last : tx) (lb lh : bytes).
 Fixpoint run_m (t : tx) (l : list step) (acc : list (string * bytes * bytes)) : option (outcome (list (string * bytes * bytes))) :=
   match l with
   | [] => Some (Ok (rev acc))
